@@ -14,7 +14,7 @@ let fail_name = function
   | FExtend -> "FExtend" | FWrite -> "FWrite" | FBeyond -> "FBeyond" | FCycle -> "FCycle" | FRange -> "FRange"
 
 (* the implementation's error classes *)
-let fail_class = function FEmpty -> "empty" | FTooLong -> "toolong" | FRange -> "model-range" | _ -> "corrupt"
+let fail_class = function FEmpty -> "empty" | FTooLong -> "toolong" | _ -> "corrupt"
 
 let show_ent (e : ent) =
   let (off, (nm, (v, nx))) = e in
